@@ -134,7 +134,7 @@ def make_function(cfg, log, ctl):
                 ctl['raised'] = exc
                 raise exc
             if not isinstance(x, (int, float, str)):
-                return ('u', type(x).__name__)
+                return ('u', type(x).__name__, y)
             return expected_result(cfg, (x, y))
     g.log = log
     g.ctl = ctl
@@ -539,9 +539,12 @@ def _frz(d):
 
 
 def snap_key(s):
-    """hashable state key (statistics excluded, see DESIGN 2)"""
+    """hashable state key.  The statistics are unbounded write-only counters and stay out of it (DESIGN 2) -- except for
+    their zero / non-zero pattern: a transition such as clear() can only be judged in a state whose counters are not
+    all zero, and that state must not be merged with the pristine one"""
+    nz = tuple(bool(x) for x in (s.stats or ()))
     return (tuple((sr(k), sr(v)) for k, v in s.mem.items()), _frz(s.arch), _frz(s.swap),
-            s.archived, sr(s.cells))
+            s.archived, sr(s.cells), nz)
 
 
 def snap_full(s):
